@@ -58,6 +58,11 @@ __all__ = (
 
 NOARG = object()
 
+# Verification hook (guarded): process-independent, seedable item hashing.
+import os as _os
+_VERIF = bool(_os.environ.get('PYTABLEAUX_VERIF'))
+_VERIF_ORDER = int(_os.environ.get('PYTABLEAUX_VERIF_ORDER') or 0)
+
 _Ranks: Mapping[str, int] = MapProxy(dict(
     Predicate  = 10,
     Constant   = 20,
@@ -213,6 +218,8 @@ class Lexical:
         This method should generally not need to be called, as it is used to
         generate and cache the instance :attr:`hash` property.
         """
+        if _VERIF:
+            return hash((_VERIF_ORDER, item.sort_tuple))
         return hash((__class__, item.sort_tuple))
 
     @staticmethod
